@@ -34,16 +34,6 @@ Definition op_of_pc (p : pc) : option op :=
   | C0 | C1 _ | C2 _ | C3 _ | C4 _ _ => Some OpCons
   | L0 | L1 _ => Some OpLen
   end.
-Definition matches (o : op) (r : res) : Prop :=
-  match o, r with
-  | OpPub v, RFull v' => v' = v
-  | OpPub v, ROk v' len => v' = v /\ True
-  | OpCons, REmpty => True
-  | OpCons, RGot _ => True
-  | OpLen, RLen _ => True
-  | _, _ => False
-  end.
-
 Lemma start_sets_call s t o : thr s t = Idle -> op_of_pc (thr (start s t o) t) = Some o.
 Proof. intros H. unfold start. rewrite H. cbn. rewrite upd_same. destruct o; reflexivity. Qed.
 
